@@ -294,6 +294,9 @@ func (b *Block) readFrom(r io.Reader) error {
 	// The spec says T[] is {itf8, element...}.
 	// This is not true for byte[] according to
 	// the EOF block.
+	if b.compressedSize < 0 {
+		return fmt.Errorf("cram: invalid block size: %d", b.compressedSize)
+	}
 	b.blockData = make([]byte, b.compressedSize)
 	_, err := io.ReadFull(&er, b.blockData)
 	if err != nil {
@@ -322,7 +325,13 @@ func (b *Block) Value() (interface{}, error) {
 		if err != nil {
 			return nil, err
 		}
+		if len(blockData) < 4 {
+			return nil, errors.New("cram: file header block too short")
+		}
 		end := binary.LittleEndian.Uint32(blockData[:4])
+		if uint64(end) > uint64(len(blockData)-4) {
+			return nil, errors.New("cram: file header length out of range")
+		}
 		err = h.UnmarshalText(blockData[4 : 4+end])
 		if err != nil {
 			return nil, err
@@ -353,7 +362,7 @@ func (b *Block) Value() (interface{}, error) {
 func (b *Block) expandBlockdata() ([]byte, error) {
 	switch b.method {
 	default:
-		panic(fmt.Sprintf("cram: unknown method: %v", b.method))
+		return nil, fmt.Errorf("cram: unknown method: %v", b.method)
 	case rawMethod:
 		return b.blockData, nil
 	case gzipMethod:
